@@ -8,11 +8,15 @@
 //	(c) nudge.go      GridSampler_checkAndNudgePoints directly and through SampleGrid with translated
 //	                  and rotated grids, per image edge and per nudge pass.
 //
-// The oracle is geometry computed in math/big.Rat; nothing of the library is re-used.
+// The oracle is geometry computed exactly (math/big.Rat for the 8x8 system, math/big.Int for the
+// homogeneous evaluation of the solved map); nothing of the library is re-used.
 package main
 
 import (
 	"fmt"
+	"os"
+	"runtime/debug"
+	"strings"
 
 	"verif/mc"
 
@@ -36,6 +40,7 @@ type rcase struct {
 }
 
 func main() {
+	debug.SetGCPercent(400) // the oracle allocates many small big.Int values
 	chk = mc.New("C19", "exploration")
 	chk.Rule = "complete products: (source quadrilateral lattice x destination family) for the transform; (grid dimensions x dyadic transform classes x images) for sampling; (image x point count x first/last point x 1/8-pixel offset lattice on x and y) and (image x grid x 8 orientations x 1/8-pixel 2-D translation lattice) for nudging. non-trivial = distinct (source,destination) pairs; distinct (dims,transform,image) grids with every cell compared; distinct nudge inputs whose outcome class (pixel kept, pulled to an edge, not-found) is decided by the exact model"
 	chk.Assume("'1e-6 relative' is read as |library - exact| <= 1e-6 * max(1, |exact x|, |exact y|) per point; probe points whose exact denominator is below 1/16 of the magnitude of its terms (i.e. near the line mapped to infinity, where cancellation is unbounded) are skipped by an exact rational test")
@@ -49,10 +54,19 @@ func main() {
 		chk.Finish()
 	}
 	selfCheck()
-	runTransform()
-	runSample()
-	runNudgeDirect()
-	runNudgeSample()
+	// C19_ONLY=transform,sample,direct,sweep restricts the run for debugging; the run is then
+	// recorded as not exhaustive.
+	only := os.Getenv("C19_ONLY")
+	for _, s := range []struct {
+		name string
+		run  func()
+	}{{"transform", runTransform}, {"sample", runSample}, {"direct", runNudgeDirect}, {"sweep", runNudgeSample}} {
+		if only == "" || strings.Contains(only, s.name) {
+			s.run()
+		} else {
+			chk.Incomplete(s.name, "skipped by C19_ONLY="+only)
+		}
+	}
 	chk.Finish()
 }
 
@@ -120,6 +134,19 @@ func selfCheck() {
 	u, v, _, _ := p.apply(ri(3, 1), ri(5, 1))
 	if u.Cmp(ri(3, 9)) != 0 || v.Cmp(ri(5, 9)) != 0 {
 		panic(fmt.Sprintf("self check: exact solver gives %v,%v", u, v))
+	}
+	// the integer homogeneous form agrees with the rational evaluation (a perspective map, a lattice of points)
+	pp, _ := solveProjective(quadF([8]float64{3.5, 3.5, 17.5, 3.5, 14.5, 14.5, 3.5, 17.5}), quadF([8]float64{0.125, 0.25, 42.5, 0.75, 41.75, 42.5, -0.375, 41.875}))
+	ip := pp.integer()
+	for j := -8; j <= 40; j++ {
+		for i := -8; i <= 40; i++ {
+			x, y := float64(i)*0.75, float64(j)*0.625
+			u1, v1, den, mag := pp.apply(rf(x), rf(y))
+			u2, v2, hz := ip.applyH(homog(x, y))
+			if (u1 == nil) != (u2 == nil) || (u1 != nil && (u1.Cmp(u2) != 0 || v1.Cmp(v2) != 0 || hz != (rmul(rabs(den), ri(16, 1)).Cmp(mag) < 0))) {
+				panic(fmt.Sprintf("self check: integer and rational evaluation differ at (%v,%v)", x, y))
+			}
+		}
 	}
 	if floorRat(ri(-1, 8)) != -1 || floorRat(ri(-8, 8)) != -1 || floorRat(ri(15, 8)) != 1 || floorRat(ri(0, 1)) != 0 {
 		panic("self check: floor")
